@@ -76,3 +76,11 @@ func C11Snapshot(px *Proxy) (names map[string]Player, ids map[uuid.UUID]Player) 
 	}
 	return names, ids
 }
+
+// C11HoldWrite takes the registry's write lock (as registerConnection/unregisterConnection do) and
+// returns its unlock: the harness uses it to park concurrent registry calls at the lock and release
+// them together.
+func C11HoldWrite(px *Proxy) (unlock func()) {
+	px.muP.Lock()
+	return px.muP.Unlock
+}
